@@ -20,7 +20,7 @@ PROPS = {
     "C09": dict(harness="gcs", trusted=GCS_TRUST, assumptions=["file mtime (generation) strictly increases between successive writes", "pending resumable uploads are per-instance session state"]),
     "C10": dict(harness="gcs", trusted=GCS_TRUST, assumptions=["store clock strictly increasing between successive writes (collisions are measured and reported)"]),
     "C11": dict(harness="gcs", trusted=GCS_TRUST, assumptions=["page tokens compared by the name they decode to"],
-                oracle_codes={1: "a complete pagination does not yield exactly the matching names once, in order", 2: "collapsed prefixes of a complete pagination are not exactly the distinct prefixes, once", 3: "a page holds more than maxResults entries"}),
+                oracle_codes={1: "a complete pagination does not yield exactly the matching names once, in order", 2: "collapsed prefixes of a complete pagination are not exactly the distinct prefixes, once", 3: "a page holds more than maxResults entries", 4: "a listing of a bucket that does not exist is not answered 404"}),
     "C15": dict(harness="gcs", trusted=GCS_TRUST, assumptions=["generation numbers compared by rank"]),
     "C06": dict(harness="bt", trusted=BT_TRUST + ["sync.RWMutex, the Go scheduler and memory model are not modelled: a lock is an atomic acquire/release; preemption is exhibited only at the instrumented yield points"],
                 assumptions=["blocking is observed through the runtime's goroutine wait state (stack frame in sync.RWMutex)"]),
